@@ -132,6 +132,13 @@ def parse_file(path):
                     cur.locals[pn] = pt
                 fns.setdefault(name, []).append(cur)
                 curbb = None
+            elif ln.startswith('const ') and ln.endswith(';') and ' = const ' in ln:
+                head, _, val = ln[6:-1].partition(' = const ')
+                nm, _, ty = head.partition(': ')
+                c = Fn(nm.strip(), [], ty.strip(), ln_no + 1, 'const')
+                c.locals['_0'] = ty.strip()
+                c.blocks['bb0'] = ['_0 = const %s;' % val.strip(), 'return;']
+                fns.setdefault(c.name, []).append(c)
             elif (ln.startswith('const ') or ln.startswith('static ')) and ln.endswith('= {'):
                 kind = 'const' if ln.startswith('const ') else 'static'
                 body = ln[len(kind) + 1:-3].strip()
